@@ -201,5 +201,24 @@ kf("C07", "C07-hlsl-uniform-matCx2-in-nested-struct", "a matCx2 member of a stru
 kf("C07", "C07-hlsl-private-array-declaration", "array-typed declarations are spelled with the dimension after the type name (`static T[2] name`, `float3[2] _value2[2]` for private/workgroup arrays and for temporaries of array-of-array stores), which is not HLSL",
    ["C07|hlsl|F3/*|*|malformed-output:array dimension after type name*", "C07|hlsl|F3/array2/array<*|*|malformed-output:type name \"float*\" used as a value"])
 
+# ---------------------------------------------------------------- C15 (hostile data)
+kf("C15", "C15-glsl-raw-div-mod", "the GLSL backend emits integer / and % raw: division or remainder by zero (and INT_MIN/-1) is undefined behaviour in GLSL; no wrapper is generated",
+   ["C15|glsl|*|F15ops/bin///*|trap:div0", "C15|glsl|*|F15ops/bin/%/*|trap:div0", "C15|glsl|*|F15ops/bin///*|trap:sdiv-overflow", "C15|glsl|*|F15ops/bin/%/*|trap:sdiv-overflow", "C15|glsl|*|F15ops/bin/%/*|trap:mod-negative"])
+kf("C15", "C15-glsl-raw-f2i", "the GLSL backend emits float->int conversions as raw int(f)/uint(f): NaN, infinite and out-of-range values are undefined in GLSL (WGSL clamps)",
+   ["C15|glsl|*|F15ops/conv/*|trap:f2i-range"])
+kf("C15", "C15-spirv-raw-f2i", "the SPIR-V backend emits bare OpConvertFToS/OpConvertFToU: NaN, infinite and out-of-range values are undefined in SPIR-V (WGSL clamps)",
+   ["C15|spirv|*|F15ops/conv/*|trap:f2i-range"])
+kf("C15", "C15-spirv-no-zero-init-function-private", "function and private variables without initialiser are emitted as OpVariable without initializer: their contents are undefined in SPIR-V (WGSL: zero). Workgroup variables are zero-initialised correctly",
+   ["C15|spirv|*|F15zero/function/*|trap:poison", "C15|spirv|*|F15zero/private/*|trap:poison"])
+kf("C15", "C15-hlsl-restrict-not-applied-to-buffers", "with RestrictIndexing on, dynamic indices into storage-buffer and uniform access chains (array members, vector components, nested arrays, runtime arrays, atomics) are not clamped: an out-of-range index reads/writes a neighbouring member or beyond the object; only function/private/workgroup arrays get min(uint(i), n-1)",
+   ["C15|hlsl|*|F15acc/read/storage-*|wrong-result", "C15|hlsl|*|F15acc/write/storage-*|wrong-result", "C15|hlsl|*|F15acc/read/atomic-load/*|wrong-result", "C15|hlsl|*|F15acc/write/atomic-add/*|wrong-result",
+    "C15|hlsl|*|F15acc/read/uniform-*|trap:oob-read", "C15|hlsl|*|F15acc/read/uniform-*|wrong-result"])
+kf("C15", "C15-hlsl-private-array-declaration", "private arrays are declared `static uint[4] pa` (dimension after the type): not HLSL (same defect as C07-hlsl-private-array-declaration)",
+   ["C15|hlsl|*|F15*|malformed-output:array dimension after type name*"])
+kf("C15", "C15-hlsl-matrix-helper-on-unemitted-struct", "a storage-only struct with a matCx2 member and a runtime-array tail is not declared in the HLSL text, but the GetMat/SetMat helper functions taking it by value are emitted: unknown type",
+   ["C15|hlsl|*|F15acc/*/storage-matrix-column/*|malformed-output:unknown type \"S\""])
+kf("C15", "C15-msl-rzsw-value-array-unchecked", "under ReadZeroSkipWrite a dynamically indexed let-bound array or vector value (`va.inner[i]`, `vv[i]`) is emitted without any bounds check",
+   ["C15|msl|index+buffer=read-zero-skip-write(default)|F15acc/read/value-array/*|trap:oob-read", "C15|msl|index+buffer=read-zero-skip-write(default)|F15acc/read/value-vector/*|trap:oob-read"])
+
 json.dump(K, open("known_findings.json", "w"), indent=1)
 print(len(K), "entries")
